@@ -746,7 +746,7 @@ fn gen11_interleave(seed: u64) -> WorldCase {
 // ---------------------------------------------------------------------------------------------
 
 /// (text, every evaluation reads the clock)
-const CLOCK_TEXTS: [(&str, bool); 47] = [
+const CLOCK_TEXTS: [(&str, bool); 50] = [
     ("now()", true),
     ("timestamp()", true),
     ("now() - timestamp(0)", true),
@@ -797,6 +797,10 @@ const CLOCK_TEXTS: [(&str, bool); 47] = [
     ("timestamp(null)", true),
     ("[timestamp(null), 1]", true),
     ("coalesce(x1, timestamp(null))", false),
+    // now() called as a method of a constant receiver (every function may be called as a method)
+    ("size(['a'.now(), 1])", true),
+    ("[1, 2].map(v, [v.now()])", true),
+    ("{'t': ['a'.now()]}", true),
 ];
 
 /// wrappers the constant folder could evaluate if their argument were constant
